@@ -39,6 +39,7 @@ struct device_data_s {
 	bool          owned;
 	device_path   paths[2];
 	nni_reap_node reap;
+	nni_task      done; // closes the sockets, completes the user aio
 };
 
 static void device_fini(void *);
@@ -60,6 +61,7 @@ device_fini(void *arg)
 	for (int i = 0; i < d->num_paths; i++) {
 		nni_aio_fini(&d->paths[i].aio);
 	}
+	nni_task_fini(&d->done);
 	NNI_FREE_STRUCT(d);
 }
 
@@ -74,6 +76,25 @@ device_close(device_data *d)
 	if (d->paths[0].dst != d->paths[0].src) {
 		nni_sock_close_device(d->paths[0].dst);
 	}
+}
+
+static void
+device_done_cb(void *arg)
+{
+	device_data *d = arg;
+	nni_aio     *user;
+	nng_err      err;
+
+	nni_mtx_lock(&device_mtx);
+	user    = d->user;
+	err     = d->rv;
+	d->user = NULL;
+	nni_mtx_unlock(&device_mtx);
+	device_close(d);
+	if (user != NULL) {
+		nni_aio_finish_error(user, err);
+	}
+	nni_reap(&device_reap, d);
 }
 
 static void
@@ -135,16 +156,11 @@ device_cb(void *arg)
 			}
 		}
 		if (d->running == 0) {
-			nni_aio *user = d->user;
-			nng_err  err  = d->rv;
-
-			d->user = NULL;
+			// We may be running inside a protocol's pipe callback
+			// (synchronous completion); closing the sockets here
+			// would wait for that very pipe.  Do it from a task.
 			nni_mtx_unlock(&device_mtx);
-			device_close(d);
-			if (user != NULL) {
-				nni_aio_finish_error(user, err);
-			}
-			nni_reap(&device_reap, d);
+			nni_task_dispatch(&d->done);
 			return;
 		}
 		nni_mtx_unlock(&device_mtx);
@@ -249,6 +265,7 @@ device_init(device_data **dp, nni_sock *s1, nni_sock *s2)
 	}
 	d->num_paths = num_paths;
 	d->owned     = false;
+	nni_task_init(&d->done, NULL, device_done_cb, d);
 	*dp          = d;
 	return (0);
 }
